@@ -73,6 +73,7 @@ type c15LiveReq struct {
 
 type c15LiveIn struct {
 	Reqs []c15LiveReq `json:"reqs"`
+	HTS  uint32       `json:"hts,omitempty"` // both peers: MaxDecoderHeaderTableSize = MaxEncoderHeaderTableSize (0: the library's default, 4096)
 }
 
 type c15LiveOut struct {
@@ -99,14 +100,20 @@ func c15Live(in *c15LiveIn) c15LiveOut {
 		_, _ = io.Copy(io.Discard, req.Body)
 		spec := byName[req.Header.Get("X-Test-Case-Name")]
 		w.Header().Set("Content-Type", spec.CT)
+		if spec.Big > 0 {
+			w.Header().Set("X-Rbig", strings.Repeat("r", spec.Big%7000))
+		}
 		w.WriteHeader(spec.Status)
 		_, _ = w.Write(c15Unhex(spec.RespBody))
 	})
-	server := &http.Server{Handler: h2c.NewHandler(handler, &http2.Server{MaxReadFrameSize: 16384}), ReadHeaderTimeout: 5 * time.Second}
+	server := &http.Server{Handler: h2c.NewHandler(handler, &http2.Server{MaxReadFrameSize: 16384,
+		MaxDecoderHeaderTableSize: in.HTS, MaxEncoderHeaderTableSize: in.HTS}), ReadHeaderTimeout: 5 * time.Second}
 	go func() { _ = server.Serve(tracer.TracingHTTP2Listener(listener, serverSink)) }()
 	transport := &http2.Transport{
-		AllowHTTP:          true,
-		DisableCompression: true,
+		AllowHTTP:                 true,
+		DisableCompression:        true,
+		MaxDecoderHeaderTableSize: in.HTS,
+		MaxEncoderHeaderTableSize: in.HTS,
 		DialTLSContext: func(ctx context.Context, network, addr string, _ *tls.Config) (net.Conn, error) {
 			conn, err := (&net.Dialer{}).DialContext(ctx, network, addr)
 			if err != nil {
@@ -174,13 +181,26 @@ type c15Frame struct {
 	Pad  int         `json:"pad,omitempty"`
 	Prio bool        `json:"prio,omitempty"`
 	Kind string      `json:"kind,omitempty"` // for O: settings | ack | ping | window | priority | unknown
+	S    [][2]uint32 `json:"s,omitempty"`    // for O/settings: the (id, value) pairs of the SETTINGS frame (default: MAX_FRAME_SIZE, INITIAL_WINDOW_SIZE)
+	TS   []c15TS     `json:"ts,omitempty"`   // for H: operations on this direction's hpack.Encoder before the block is encoded
+}
+
+// c15TS is one operation on a direction's hpack.Encoder: "l" SetMaxDynamicTableSizeLimit(v)
+// (what the peer's SETTINGS_HEADER_TABLE_SIZE allows), "s" SetMaxDynamicTableSize(v).  The
+// encoder emits the resulting dynamic-table-size update(s) at the start of the next block.
+type c15TS struct {
+	Op string `json:"op"`
+	V  uint32 `json:"v"`
 }
 
 type c15In struct {
 	Server bool              `json:"server"`
 	Legal  bool              `json:"legal"` // every frame is one the real Framer accepts (no X, no mutation)
 	Frames []c15Frame        `json:"frames"`
-	Calls  [][]any           `json:"calls"` // ["r"|"w", n, "ok"|"timeout"|"fail", tag] | ["c", kind, tag] | ["t"]
+	// ["r", n, kind, tag]: the inner Read returns the next n bytes AND the error of that kind in one call;
+	// ["w", n, kind, tag, wn]: Write of the next n bytes, the inner Write returns (min(wn, n), error) (wn absent: n, or n/2 with an error);
+	// ["c", kind, tag] Close; ["t"] retryWait elapses.  kind: ok | eof (io.EOF) | timeout | deadline (*net.OpError, os.ErrDeadlineExceeded) | fail
+	Calls  [][]any           `json:"calls"`
 	Mut    [][]any           `json:"mut,omitempty"` // [dir, offset, xor]
 	Raw    map[string]string `json:"raw,omitempty"` // whole byte string of a direction (fuzz)
 	Note   string            `json:"note,omitempty"`
@@ -226,6 +246,8 @@ type c15RetryIn struct {
 
 const c15Preface = "PRI * HTTP/2.0\r\n\r\nSM\r\n\r\n"
 
+const c15MaxFrame = 16384
+
 type c15Side struct {
 	buf  bytes.Buffer
 	fr   *http2.Framer
@@ -262,6 +284,14 @@ func c15Build(frames []c15Frame) (q, p []byte, lens []int) {
 		switch f.T {
 		case "H":
 			s.hbuf.Reset()
+			for _, ts := range f.TS {
+				switch ts.Op {
+				case "l":
+					s.enc.SetMaxDynamicTableSizeLimit(ts.V)
+				case "s":
+					s.enc.SetMaxDynamicTableSize(ts.V)
+				}
+			}
 			for _, kv := range f.F {
 				s.enc.WriteField(hpack.HeaderField{Name: kv[0], Value: kv[1]})
 			}
@@ -269,6 +299,9 @@ func c15Build(frames []c15Frame) (q, p []byte, lens []int) {
 			pieces := f.Cont
 			if pieces < 1 {
 				pieces = 1
+			}
+			if need := (len(block) + c15MaxFrame - 1) / c15MaxFrame; pieces < need {
+				pieces = need // a block larger than the default SETTINGS_MAX_FRAME_SIZE continues in CONTINUATION frames
 			}
 			if pieces > len(block) {
 				pieces = len(block)
@@ -299,6 +332,14 @@ func c15Build(frames []c15Frame) (q, p []byte, lens []int) {
 		case "O":
 			switch f.Kind {
 			case "settings":
+				if len(f.S) > 0 {
+					var set []http2.Setting
+					for _, kv := range f.S {
+						set = append(set, http2.Setting{ID: http2.SettingID(kv[0]), Val: kv[1]})
+					}
+					s.fr.WriteSettings(set...)
+					break
+				}
 				s.fr.WriteSettings(http2.Setting{ID: http2.SettingMaxFrameSize, Val: 16384}, http2.Setting{ID: http2.SettingInitialWindowSize, Val: 65535})
 			case "ack":
 				s.fr.WriteSettingsAck()
@@ -437,6 +478,10 @@ func (s *c15Sink) Complete(t tracer.Trace) {
 
 func c15MkErr(kind, tag string) error {
 	switch kind {
+	case "eof":
+		return io.EOF
+	case "deadline":
+		return &net.OpError{Op: "read", Net: "tcp", Err: os.ErrDeadlineExceeded}
 	case "timeout":
 		return &c15Err{tag: tag, timeout: true}
 	case "fail":
@@ -448,6 +493,22 @@ func c15MkErr(kind, tag string) error {
 func c15ErrClass(err error) string {
 	if err == nil {
 		return "nil"
+	}
+	wrapped := strings.HasPrefix(err.Error(), "socket closed; ")
+	if err == io.EOF {
+		return "io:EOF"
+	}
+	if wrapped && errors.Is(err, io.EOF) {
+		return "closed:EOF"
+	}
+	var oe *net.OpError
+	if errors.As(err, &oe) && errors.Is(err, os.ErrDeadlineExceeded) {
+		if err == error(oe) {
+			return "io:deadline"
+		}
+		if wrapped {
+			return "closed:deadline"
+		}
 	}
 	var ie *c15Err
 	if errors.As(err, &ie) {
@@ -642,6 +703,13 @@ func c15Conn(in *c15In) c15Out {
 			inner.wN = len(chunk)
 			if inner.wErr != nil {
 				inner.wN = len(chunk) / 2
+			}
+			if len(call) >= 5 {
+				if wn := c15Num(call[4]); wn >= 0 && wn < len(chunk) {
+					inner.wN = wn
+				} else {
+					inner.wN = len(chunk)
+				}
 			}
 			inner.wGot = nil
 			arg := append([]byte{}, chunk...)
@@ -1029,6 +1097,80 @@ func (g *c15Gen) variants(frames []c15Frame, legal bool, tail [][]any, class str
 			calls := append(c15Calls(server, runs, part), tail...)
 			g.emit(c15In{Server: server, Legal: legal, Frames: frames, Calls: calls, Note: class}, class)
 		}
+		// the inner connection returns bytes together with an error: the last Read of the exchange
+		// (the connection is used no further), and some call in the middle (the script goes on)
+		calls := c15Calls(server, runs, gen.Pick(g.r, parts[:3]))
+		if k := c15LastOf(calls, "r"); k >= 0 {
+			ended := c15WithResult(calls, k, gen.Pick(g.r, []string{"eof", "eof", "fail"}), "EL", -1)
+			g.emit(c15In{Server: server, Legal: legal, Frames: frames, Calls: ended[:k+1:k+1], Note: class + "+err"}, class+"+err")
+		}
+		calls = c15Calls(server, runs, gen.Pick(g.r, parts[:3]))
+		if len(calls) > 0 {
+			k := g.r.Intn(len(calls))
+			calls = c15WithResult(calls, k, gen.Pick(g.r, c15ErrKinds), "EM", g.r.Intn(c15Num(calls[k][1])+1))
+			g.emit(c15In{Server: server, Legal: legal, Frames: frames, Calls: append(calls, tail...), Note: class + "+err"}, class+"+err")
+		}
+	}
+}
+
+// the error kinds of the inner connection; any of them may accompany any number of bytes
+var c15ErrKinds = []string{"eof", "timeout", "deadline", "fail"}
+
+// c15WithResult returns a copy of calls in which call k (a Read or a Write) ends with the given
+// error kind — together with its bytes; a Write reports wn bytes written (wn < 0: all).
+func c15WithResult(calls [][]any, k int, kind, tag string, wn int) [][]any {
+	out := append([][]any{}, calls...)
+	n := c15Num(calls[k][1])
+	if c15Str(calls[k][0]) == "w" {
+		if wn < 0 || wn > n {
+			wn = n
+		}
+		out[k] = []any{"w", n, kind, tag, wn}
+	} else {
+		out[k] = []any{"r", n, kind, tag}
+	}
+	return out
+}
+
+func c15LastOf(calls [][]any, kind string) int {
+	for k := len(calls) - 1; k >= 0; k-- {
+		if c15Str(calls[k][0]) == kind {
+			return k
+		}
+	}
+	return -1
+}
+
+// errData: one exchange; every call of a few partitions, on both sides, ends with every error
+// kind together with its bytes (Reads) / with every count 0, n/2, n (Writes; also short without
+// an error); the connection is then either used no further, or the script goes on and closes.
+func (g *c15Gen) errData(frames []c15Frame, note string, parts []func(int, int) []int) {
+	_, _, lens := c15Build(frames)
+	runs := c15Runs(frames, lens)
+	for _, server := range []bool{false, true} {
+		for _, part := range parts {
+			calls := c15Calls(server, runs, part)
+			for k := range calls {
+				n := c15Num(calls[k][1])
+				wns := []int{-1}
+				if c15Str(calls[k][0]) == "w" {
+					wns = []int{0, n}
+					if n/2 > 0 {
+						wns = []int{0, n / 2, n}
+					}
+				}
+				for _, kind := range append([]string{"ok"}, c15ErrKinds...) {
+					for _, wn := range wns {
+						if kind == "ok" && (wn < 0 || wn == n) {
+							continue // the plain call
+						}
+						mod := c15WithResult(calls, k, kind, "EK", wn)
+						g.emit(c15In{Server: server, Legal: true, Frames: frames, Calls: mod[:k+1:k+1], Note: note}, note)
+						g.emit(c15In{Server: server, Legal: true, Frames: frames, Calls: append(mod, c15Close...), Note: note}, note)
+					}
+				}
+			}
+		}
 	}
 }
 
@@ -1119,6 +1261,22 @@ func runC15(c *gen.Ctx) error {
 			g.emit(c15In{Server: server, Legal: true, Frames: basic, Calls: append(c15Calls(server, runs, c15Fixed(k)), c15Close...), Note: "fixed"}, "fixed")
 		}
 	}
+
+	// ---- G1b: bytes together with an error, at every call of a few partitions
+	edParts := []func(int, int) []int{c15Whole, c15Fixed(23), c15RandPart(r)}
+	if thorough {
+		edParts = append(edParts, c15Fixed(1), c15Fixed(5), c15Fixed(9), c15RandPart(r), c15RandPart(r))
+	}
+	g.errData(basic, "errdata", edParts)
+	two := []c15Frame{
+		{D: "q", T: "H", ID: 1, F: c15ReqFields("t1", "application/grpc", "/svc.S/M")},
+		{D: "q", T: "H", ID: 3, F: c15ReqFields("t2", "application/connect+proto", "/svc.S/N"), ES: true},
+		{D: "p", T: "H", ID: 3, F: c15RespFields("200", "application/connect+proto")},
+		{D: "q", T: "D", ID: 1, X: gen.Hex(c15Msg(0, []byte("ab"))), ES: true},
+		{D: "p", T: "D", ID: 3, X: gen.Hex(c15Msg(0, []byte("xyz"))), ES: true},
+		{D: "p", T: "H", ID: 1, F: c15RespFields("200", "application/grpc", [2]string{"grpc-status", "0"}), ES: true},
+	}
+	g.errData(two, "errdata2", []func(int, int) []int{c15Whole, c15RandPart(r)})
 
 	// ---- G2: scenario families
 	for _, sc := range c15Scenarios() {
